@@ -27,7 +27,8 @@ RULE = (
     "1e-7, 123456.789, 1e10, -3.25e-4, all of them mixed, position-tagged values at three "
     "magnitudes, tagged int64) x labels {absent, 1/2, a/B, Yes/no} x comment {none, short, "
     "wrapping (with '@data', ':' and ',' inside)} x (equal_length, series_length) in "
-    "{(F,-1),(F,L),(T,L),(T,-1)}; fresh temp dir per case. VERIF_SEED + case index only "
+    "{(F,-1),(F,L),(T,L),(T,-1)}; labels also non-ASCII (accented, Greek); fresh temp dir per case "
+    "(+ 216 cases in which an earlier write of another panel to the same path and problem name precedes the judged write). VERIF_SEED + case index only "
     "rotate representation details: index of the inner series / of the frame, list vs "
     "ndarray class_value_list, problem name. b: every (bundled dataset dir, TRAIN|TEST) that "
     "ships >= 2 of .ts/.arff/.tsv. c: 7 load_<name> functions + load_UCR_UEA_dataset for the "
@@ -42,6 +43,8 @@ ASSUMPTIONS = [
     "'precision the writer prints' = half a unit of the last digit of each printed token, "
     "whatever number of digits pandas' Series.to_string chooses; no minimum number of "
     "significant digits is demanded",
+    "non-ASCII labels are only judged when the platform's preferred encoding is UTF-8 (the "
+    "writer uses the platform default, the parser UTF-8)",
     "labels are compared case-insensitively and as str (the .ts parser lower-cases every "
     "line, read_csv turns UCR .tsv labels into integers): the statement allows the parser's "
     "case rule and does not decide the label dtype",
@@ -65,7 +68,8 @@ BASE = [0.0, 1.5, -1.5, 1e-7, 123456.789, 1e10, -3.25e-4]
 FAMS = ["zero", "pm1.5", "tiny", "mid", "big", "negsmall", "mixed", "tagged", "tagged_tiny",
         "tagged_big", "tagged_int"]
 LABELSETS = [None, ["1", "2"], ["a", "B"], ["Yes", "no"], [0, 1], [1, 0], [0, 2],
-             ["c#1", "c#2"], [1234567.0, 1234568.0], [22050.25, 0.5]]
+             ["c#1", "c#2"], [1234567.0, 1234568.0], [22050.25, 0.5],
+             ["caf\u00e9", "gr\u00f6\u00dfe"], ["\u03b2", "x"]]
 COMMENTS = {
     "none": None,
     "short": "a short comment",
@@ -103,6 +107,21 @@ def gen_cases(tier, seed):
                                                            outer=("range", "from10")[(r // 2) % 2],
                                                            cont=("list", "array")[(r // 4) % 2],
                                                            name=("p", "Sample_Data")[(r // 8) % 2]))
+    # a file of the same name already exists (an earlier write of another panel to the same
+    # path / problem name, with or without a comment): the later write must replace it
+    for n in (1, 2, 3):
+        for L in (2, 3):
+            for fam in ("mixed", "tagged"):
+                for labels in LABELSETS[:3]:
+                    for com in ("none", "short", "long"):
+                        for pre in ("none", "short"):
+                            i += 1
+                            r = i + seed
+                            yield dict(kind="a", n=n, L=L, fam=fam, labels=labels, comment=com,
+                                       lenopt=LENOPTS[i % 3], pre=pre,
+                                       rep=dict(inner=("range", "from5")[r % 2], outer="range",
+                                                cont=("list", "array")[(r // 4) % 2],
+                                                name=("p", "Sample_Data")[(r // 8) % 2]))
     # long series (numpy abbreviates the printed form of arrays with more than 1000 elements)
     for L in (999, 1000, 1001, 1500):
         for fam in FAMS:
@@ -329,8 +348,26 @@ def _part_a(case, res):
     if lo in ("eq+len", "eq"):
         kw["equal_length"] = True
     lk = "nolabel" if labels is None else "labels"
+    if labels is not None and not all(str(x).isascii() for x in labels):
+        import locale
+
+        if locale.getpreferredencoding(False).lower().replace("-", "") != "utf8":
+            res.outcome("a:skipped:non-ascii-labels-under-non-utf8-locale")
+            return res
     tmp = tempfile.mkdtemp(prefix="c18_")
     try:
+        if case.get("pre"):
+            c2 = dict(case, n=n + 1, fam="big")
+            X2, _ = _panel(c2)
+            kw2 = dict(problem_name=rep["name"])
+            if labels is not None:
+                kw2["class_label"] = list(labels)
+                kw2["class_value_list"] = [labels[1]] * (n + 1)
+            if COMMENTS[case["pre"]] is not None:
+                kw2["comment"] = COMMENTS[case["pre"]]
+            w0 = call(write_dataframe_to_tsfile, X2, tmp, **kw2)
+            res.evals += 1
+            res.outcome("a:prewrite:" + w0.kind)
         w = call(write_dataframe_to_tsfile, X, tmp, **kw)
         if lo == "eq":
             res.outcome("a:write:eq-without-length:" + w.kind)
@@ -412,7 +449,7 @@ def _part_a(case, res):
             Xl, y = out
         if not compare_panel(res, "a:load", Xl, y, cases, "loaded .ts"):
             return res
-        res.nt(("a", n, L, case["fam"], tuple(labels or ()), case["comment"], lo))
+        res.nt(("a", n, L, case["fam"], tuple(labels or ()), case["comment"], lo, case.get("pre")))
         # ---- single-frame form
         fr = call(load_from_tsfile_to_dataframe, path, return_separate_X_and_y=False)
         res.evals += 1
